@@ -234,6 +234,11 @@ func (c *Chain) Step(o StepOpts) (*Block, error) {
 		dt = c.Step0
 	}
 	t := c.Now.Add(dt)
+	if c.W.Cfg.RealTime {
+		if t = time.Now().UTC(); !t.After(c.Now) {
+			t = c.Now.Add(time.Nanosecond)
+		}
+	}
 	prop := c.ProposerIndex(o.Prop - 1)
 	lc := c.LastCommitInfo(o.Absent)
 
